@@ -1038,9 +1038,11 @@ func c43ServeStream(w *c43World, s *c43Stream) (err error) {
 		return violationf("List after the stream failed: %v", lerr)
 	}
 	var reqs []byte
-	for _, k := range keys {
-		for _, fl := range []uint32{0, 2, 4} {
-			reqs = append(reqs, ref.Frame(ref.EncodeSign(k.Blob, []byte("data after the stream"), fl))...)
+	for i, k := range keys {
+		if i < 3 {
+			for _, fl := range []uint32{0, 4} {
+				reqs = append(reqs, ref.Frame(ref.EncodeSign(k.Blob, []byte("data after the stream"), fl))...)
+			}
 		}
 		reqs = append(reqs, ref.Frame(ref.EncodeRemove(k.Blob))...)
 	}
@@ -1099,7 +1101,7 @@ func TestC43(t *testing.T) {
 	modes := []string{"direct", "direct", "client-pipeline", "client-pipeline", "client-serial", "raw", "raw", "refserver-pipeline", "refserver-serial"}
 	var deferred, external []*c43History
 	maxExternal := 40
-	maxDeferred := ev.Scale(48, 384)
+	maxDeferred := ev.Scale(96, 384)
 	stall := 60 * time.Second
 
 	rapid.Check(t, func(rt *rapid.T) {
